@@ -31,6 +31,102 @@ def shape1(t: T) -> T:
     return getitem(mk("attr", t, "shape"), const(1))
 
 
+def ratio_denominator(t: Optional[T]) -> Optional[T]:
+    """The hand-coded CI routines return  numerator / <overlap ratio> (+ constant terms): the one non-constant
+    denominator reachable through the top-level sums of the result."""
+    from ..symex import strip_wrappers
+    dens: Dict[int, T] = {}
+
+    def walk(x, depth=0):
+        x = strip_wrappers(x)
+        if depth > 8:
+            return
+        if x.op == "binop" and x.args[0] in ("+", "-"):
+            walk(x.args[1], depth + 1)
+            walk(x.args[2], depth + 1)
+        elif x.op == "binop" and x.args[0] == "/":
+            d = strip_wrappers(x.args[2])
+            if d.op != "const":
+                dens[d.uid] = d
+            walk(x.args[1], depth + 1)
+
+    if t is not None:
+        walk(t)
+    return next(iter(dens.values())) if len(dens) == 1 else None
+
+
+def _numerator(t: Optional[T]) -> Optional[T]:
+    """numerator of the ratio found by ratio_denominator"""
+    from ..symex import strip_wrappers
+    from .match import m_binop, sum_terms
+    if t is None:
+        return None
+    for _, x in sum_terms(t):
+        q = m_binop(strip_wrappers(x), "/")
+        if q is not None and strip_wrappers(q[1]).op != "const":
+            return q[0]
+    return None
+
+
+def sum_factor(t: Optional[T]) -> Optional[T]:
+    """(1 + a + b) * o0  ->  the factor that is a sum containing the constant 1."""
+    from ..symex import strip_wrappers
+    from .match import product_factors, sum_terms
+    if t is None:
+        return None
+    got = []
+    for f in product_factors(t):
+        f0 = strip_wrappers(f)
+        terms = sum_terms(f0)
+        if len(terms) >= 2 and any(strip_wrappers(x).op == "const" and strip_wrappers(x).args[0] in (1, 1.0) for _, x in terms):
+            got.append(f0)
+    return got[0] if len(got) == 1 else None
+
+
+def beta_walker(e: "Evald") -> Optional[T]:
+    """ucisd works with the down walker in the beta MO basis: mo_coeff[1].T . walker_dn[:, :n_dn]"""
+    from ..symex import call_parts, strip_wrappers, subterms
+    moB = key(WD, "mo_coeff", 1)
+    hits = {}
+    for x in subterms(e.result):
+        if x.op == "call" and x.args[0].op == "attr" and x.args[0].args[1] == "dot":
+            rec = strip_wrappers(x.args[0].args[0])
+            if rec.op == "attr" and rec.args[1] == "T" and strip_wrappers(rec.args[0]) is moB:
+                a = call_parts(x)[1]
+                if a and any(y is sym("walker_dn") for y in subterms(a[0])):
+                    hits[x.uid] = x
+        if x.op == "binop" and x.args[0] == "@":
+            rec = strip_wrappers(x.args[1])
+            if rec.op == "attr" and rec.args[1] == "T" and strip_wrappers(rec.args[0]) is moB and \
+                    any(y is sym("walker_dn") for y in subterms(x.args[2])):
+                hits[x.uid] = x
+    return next(iter(hits.values())) if len(hits) == 1 else None
+
+
+def only_built_from(t: T, leaves) -> Optional[T]:
+    """The maximal subterm of t that mentions every one of `leaves` and no other input (constants aside)."""
+    from ..symex import strip_wrappers, subterms
+    leaves = list(leaves)
+
+    def pure(x, memo={}):
+        if x.uid in memo:
+            return memo[x.uid]
+        if any(x is l for l in leaves):
+            r = True
+        elif x.op in ("const", "name"):
+            r = True
+        elif x.op in ("sym", "havoc", "scan_x", "vmap_elem", "phi"):
+            r = False
+        else:
+            r = all(pure(a) for a in x.args if isinstance(a, T))
+        memo[x.uid] = r
+        return r
+
+    cands = [x for x in subterms(t) if pure(x) and all(any(y is l for y in subterms(x)) for l in leaves)]
+    top = [x for x in cands if not any(x is not y and any(z is x for z in subterms(y)) for y in cands)]
+    return top[0] if len(top) == 1 else None
+
+
 class Sib:
     def __init__(self, ctx):
         self.ctx = ctx
@@ -217,67 +313,46 @@ class Sib:
         en = self.E("cisd", "_calc_energy_restricted")
         ov = self.E("cisd", "_calc_overlap_restricted")
         enf = self.E("cisd_faster", "_calc_energy_restricted")
-        self.cmp("SIB-2", "cisd: overlap ratio in the force bias == overlap ratio in the energy",
-                 fb.var("overlap"), en.var("overlap"), fb.fi)
-        self.cmp("SIB-2", "cisd_faster: overlap ratio in the energy == cisd's", enf.var("overlap"),
-                 en.var("overlap"), enf.fi)
+        r_fb, r_en, r_enf = ratio_denominator(fb.result), ratio_denominator(en.result), ratio_denominator(enf.result)
+        self.cmp("SIB-2", "cisd: overlap ratio in the force bias == overlap ratio in the energy", r_fb, r_en, fb.fi)
+        self.cmp("SIB-2", "cisd_faster: overlap ratio in the energy == cisd's", r_enf, r_en, enf.fi)
         hyp = {shape1(sym("walker")): nelec(0)}
-        self.cmp("SIB-2", "cisd: singles term of the overlap == singles term of the energy's ratio",
-                 ov.var("o1"), en.var("ci1g"), ov.fi, hyp, what="walker has nelec[0] columns")
-        self.cmp("SIB-2", "cisd: doubles term of the overlap == doubles term of the energy's ratio",
-                 ov.var("o2"), en.var("gci2g"), ov.fi, hyp, what="walker has nelec[0] columns")
+        self.cmp("SIB-2", "cisd: (1 + singles + doubles) of the overlap == overlap ratio of the energy",
+                 sum_factor(ov.result), r_en, ov.fi, hyp, what="walker has nelec[0] columns")
 
     def ucisd_overlap_ratio(self):
         fb = self.E("ucisd", "_calc_force_bias")
         en = self.E("ucisd", "_calc_energy")
         ov = self.E("ucisd", "_calc_overlap")
-        self.cmp("SIB-2", "ucisd: overlap ratio in the force bias == overlap ratio in the energy",
-                 fb.var("overlap"), en.var("overlap"), fb.fi)
-        wdb = ov.var("walker_dn_B")
+        r_fb, r_en = ratio_denominator(fb.result), ratio_denominator(en.result)
+        self.cmp("SIB-2", "ucisd: overlap ratio in the force bias == overlap ratio in the energy", r_fb, r_en, fb.fi)
+        wdb = beta_walker(ov)
         hyp = {shape1(sym("walker_up")): nelec(0)}
         if wdb is not None:
             hyp[shape1(wdb)] = nelec(1)
-        one = const(1.0)
-        o1, o2 = ov.var("o1"), ov.var("o2")
-        if o1 is None or o2 is None:
-            raise AnalysisError("ucisd._calc_overlap: o1/o2 vanished")
-        self.cmp("SIB-2", "ucisd: 1 + o1 + o2 of the overlap == overlap ratio of the energy",
-                 mk("binop", "+", mk("binop", "+", one, o1), o2), en.var("overlap"), ov.fi, hyp,
-                 what="walkers have nelec[s] columns")
+        self.cmp("SIB-2", "ucisd: (1 + singles + doubles) of the overlap == overlap ratio of the energy",
+                 sum_factor(ov.result), r_en, ov.fi, hyp, what="walkers have nelec[s] columns")
 
     def noci_total_overlap(self):
         no = self.E("noci", "_calc_overlap")
         nf = self.E("noci", "_calc_force_bias")
         ne = self.E("noci", "_calc_energy")
         self.cmp("SIB-2", "noci: total overlap in the force bias == _calc_overlap", no.result,
-                 nf.var("overlap"), nf.fi, frame=no.frame)
+                 ratio_denominator(nf.result), nf.fi, frame=no.frame)
         self.cmp("SIB-2", "noci: total overlap in the energy == _calc_overlap", no.result,
-                 ne.var("overlap"), ne.fi, frame=no.frame)
+                 ratio_denominator(ne.result), ne.fi, frame=no.frame)
 
     # ------------------------------------------------------- C02 energy copies
     def cisd_vs_faster(self):
+        """cisd_faster replaces the per-Cholesky-vector scan of cisd by batched contractions.  An accumulating scan of
+        scalar contractions is the same contraction with the scanned axis summed (GVN-L rewrites it so), hence the two
+        energies must receive the same value number as wholes -- no variable names involved."""
         en = self.E("cisd", "_calc_energy_restricted")
         enf = self.E("cisd_faster", "_calc_energy_restricted")
-        skip = {"self", "walker", "ham_data", "wave_data"}
-        common = [k for k in en.frame.env.vars if k in enf.frame.env.vars and k not in skip]
-        if len(common) < 30:
-            raise AnalysisError("cisd / cisd_faster no longer share their intermediates")
-        # intended differences: the scan replaced by batched einsums
-        replaced = {"e2_2_2_2", "e2_2_3"}
-        g = GVN(self.ev)
-        differing = [k for k in common if f_key(g.number(en.var(k))) != f_key(g.number(enf.var(k)))]
-        # anything that differs must depend on a replaced quantity: compare again with the
-        # replaced quantities abstracted to one symbol on both sides
-        hyp_a = {en.var(k): sym(f"§{k}") for k in replaced if en.var(k) is not None}
-        hyp_b = {enf.var(k): sym(f"§{k}") for k in replaced if enf.var(k) is not None}
-        for k in common:
-            if k in replaced:
-                continue
-            self.cmp("SIB-2", f"cisd_faster._calc_energy_restricted: intermediate '{k}' == cisd's",
-                     en.var(k), enf.var(k), enf.fi, hyp_a, hyp_b,
-                     what="modulo the two scan-replaced terms")
-        self.cmp("SIB-2", "cisd_faster._calc_energy_restricted: result combines the pieces as cisd does",
-                 en.result, enf.result, enf.fi, hyp_a, hyp_b, what="modulo the two scan-replaced terms")
+        self.cmp("SIB-2", "cisd_faster._calc_energy_restricted == cisd._calc_energy_restricted", en.result, enf.result,
+                 enf.fi, what="scan over Cholesky vectors == batched contraction")
+        self.cmp("SIB-2", "cisd_faster: numerator of the energy == cisd's", _numerator(en.result), _numerator(enf.result),
+                 enf.fi)
 
     def noci_vs_uhf(self):
         nd = self.E("noci", "_calc_energy_single_det")
@@ -316,33 +391,39 @@ class Sib:
 
     def ucisd_spin_symmetry(self, meth: str):
         ue = self.E("ucisd", meth)
-        v = ue.var
         pairs: List[Tuple[T, T]] = []
-
-        def add(a, b):
-            if a is None or b is None:
-                raise AnalysisError(f"ucisd.{meth}: a spin-paired intermediate vanished")
-            pairs.append((a, b))
-
-        if meth == "_calc_overlap":
-            add(sym("walker_up"), v("walker_dn_B"))
-            pairs.append((nelec(0), nelec(1)))
-            pairs.append((key(WD, "ci1A"), key(WD, "ci1B")))
-            pairs.append((key(WD, "ci2AA"), key(WD, "ci2BB")))
-        else:
-            add(v("green_a"), v("green_b"))
-            pairs.append((nelec(0), nelec(1)))
-            add(v("ci1_a"), v("ci1_b"))
-            add(v("ci2_aa"), v("ci2_bb"))
-            add(v("chol_a"), v("chol_b"))
+        extra_a: Dict[T, T] = {}
+        extra_b: Dict[T, T] = {}
+        wb = beta_walker(ue)
+        self.ctx.ob("SYM-1", f"ucisd.{meth}: the down walker enters through the beta MO basis, mo_coeff[1].T . walker_dn",
+                    wb is not None, "found" if wb is not None else
+                    "no term mo_coeff[1].T . walker_dn[...] in the result: the beta sector is not rotated with the beta orbitals",
+                    ue.fi)
+        if wb is None:
+            return
+        # the beta sector is written in the beta MO basis: every alpha input has a named beta partner
+        pairs.append((sym("walker_up"), wb))
+        pairs.append((nelec(0), nelec(1)))
+        pairs.append((key(WD, "ci1A"), key(WD, "ci1B")))
+        pairs.append((key(WD, "ci2AA"), key(WD, "ci2BB")))
+        if meth != "_calc_overlap":
+            pairs.append((key(HD, "chol"), key(HD, "chol_b")))
             if meth == "_calc_energy":
-                add(v("h1_a"), v("h1_b"))
+                h1a = only_built_from(ue.result, [key(HD, "h1", 0), key(HD, "h1", 1)])
+                if h1a is None:
+                    raise AnalysisError("ucisd._calc_energy: the alpha one-body matrix built from h1[0], h1[1] was not found")
+                # the alpha one-body matrix is a combination of inputs: abstract it to one symbol in both copies
+                H = sym("§h1_alpha")
+                extra_a[h1a] = H
+                extra_b[h1a] = key(HD, "h1_b")
+                extra_b[key(HD, "h1_b")] = H
                 pairs.append((key(HD, "lci1_a"), key(HD, "lci1_b")))
         m = swap_map(pairs)
         ab = key(WD, "ci2AB")
         m[ab] = call(name("jax.numpy.transpose"), ab, mk("tuple", const(2), const(3), const(0), const(1)))
+        m.update(extra_b)
         self.cmp("SYM-1", f"ucisd.{meth}: invariant under exchanging the spin labels a <-> b", ue.result,
-                 ue.result, ue.fi, None, hyp_b=m,
+                 ue.result, ue.fi, extra_a or None, hyp_b=m,
                  what="a <-> b in Green's functions, integrals, amplitudes; ci2AB transposed")
 
 
